@@ -34,10 +34,14 @@ function runOne(state, input, fuel, doInit) {
   state.errors = [];
   let cls = null, v = null, panic = '';
   try {
-    if (doInit) p.init();
-    v = p.parse(input);
+    // run inside the context with a time limit: a generated parser that loops
+    // without calling the lexer or an action burns no fuel
+    state.ctx.__verifInput = input;
+    state.ctx.__verifInit = doInit;
+    v = vm.runInContext('(__verifInit ? __verifParser.init() : 0, __verifParser.parse(__verifInput))', state.ctx, { timeout: 8000 });
   } catch (e) {
     if (e === FUEL) cls = 'loop';
+    else if (e && e.code === 'ERR_SCRIPT_EXECUTION_TIMEOUT') { cls = 'hang'; panic = 'the generated parser does not return (8 s)'; }
     else { cls = 'crash'; panic = (e && e.name ? e.name + ': ' : '') + (e && e.message !== undefined ? e.message : String(e)); }
   }
   if (!cls) {
@@ -68,7 +72,9 @@ function main() {
     try {
       code = fs.readFileSync(j.file, 'utf8');
       const ctx = vm.createContext({ RT: state.RT, console: state.console });
+      state.ctx = ctx;
       vm.runInContext(code, ctx, { filename: j.pkg + '.js', timeout: 20000 });
+      ctx.__verifParser = state.parser;
       if (!state.parser && !j.load_only) throw new Error('the generated file did not reach the end of the harness epilogue');
     } catch (e) {
       emit({ pkg: j.pkg, kind: 'load', err: (e && e.name ? e.name + ': ' : '') + (e && e.message ? e.message : String(e)) });
